@@ -19,6 +19,8 @@ package c02
 //           2^32-1, large tables, TDX rows whose MRTD is not 48 bytes)
 //   getter  the endorsement comes through the caller's HTTPS getter, which fails, bursts,
 //           answers with another object, with garbage, and is then retried
+//   src     (sources.go) several sources of the endorsement present at once and disagreeing;
+//           options of another entry point already filled in when the validator is built
 import (
 	"bytes"
 	"context"
@@ -1401,15 +1403,17 @@ func runAudit(c *core.Ctx, w *world, base int) {
 	base += runSessions(c, w, base, tl)
 	base += runConcurrentMixed(c, w, base, tl)
 	base += runCombos(c, w, base, tl)
-	runGetter(c, w, base, tl)
-	for _, fam := range []string{"seq", "cmix", "combo", "getter"} {
+	base += runGetter(c, w, base, tl)
+	runSources(c, w, base, tl)
+	for _, fam := range []string{"seq", "cmix", "combo", "getter", "src"} {
 		c.Count("accept-listed/"+fam, tl.acc[fam])
 		c.Count("reject-unlisted/"+fam, tl.rej[fam])
 		c.Floor("accept-listed/"+fam, tl.acc[fam] > 0)
 		c.Floor("reject-unlisted/"+fam, tl.rej[fam] > 0)
 	}
 	for _, k := range []string{"seq/listed-by-other-endorsement", "seq/measurement-of-previous-call", "seq/scribbled-into-returned-policy", "cmix/listed-by-other-endorsement", "cmix/listed-for-other-request",
-		"combo/listed-for-congruent-count", "combo/only-in-base-policy", "getter/measurement-of-previous-call"} {
+		"combo/listed-for-congruent-count", "combo/only-in-base-policy", "getter/measurement-of-previous-call",
+		"src/listed-by-losing-source", "src/one-bit-neighbour-of-options-measurement"} {
 		c.Count("reject-unlisted/"+k, tl.rej[k])
 		c.Floor("probe-rejected/"+k, tl.rej[k] > 0)
 	}
